@@ -174,6 +174,8 @@ def run(chk):
                         "copy.copy of an AST node gives a new node with the same field values (pyvc model); places and comptime values behind argument nodes must be shared, which the obligation demands by identity"]
     chk.not_covered += ["that the callee's own check_call accepts exactly the signatures it should (C12/C16)", "compile-time dispatch (the call node is replaced by the chosen variant's node)"]
     # a variant is applicable only if the instantiation it needs respects the parameter bounds (shared with C12)
+    from .C12 import args_list_untouched
+    args_list_untouched(chk, tag="second-pass-resolves-afresh:")
     from .C12 import instantiation_checked
     instantiation_checked(chk, tag="variant-applicability:")
     chk.use_engine(e)
